@@ -403,6 +403,10 @@ impl<'d> BuildCtx<'d> {
     }
 }
 
+/// the registrations of the next `build_case` are made from a destructor while the calling thread
+/// unwinds (a teardown dispatcher built inside a `Drop`): set by the engine per case
+pub static BUILD_UNWINDING: std::sync::atomic::AtomicBool = std::sync::atomic::AtomicBool::new(false);
+
 pub fn build_case(ops: &[Op], drv: Option<&mut Drv>, shared: Arc<Shared>, pool: &Pool, borrow: bool) -> Built {
     let mut drv = drv;
     if let Some(d) = drv.as_mut() {
@@ -410,8 +414,16 @@ pub fn build_case(ops: &[Op], drv: Option<&mut Drv>, shared: Arc<Shared>, pool: 
     }
     let mut ctx = BuildCtx::new(drv, shared, borrow);
     let mut b = new_builder(pool);
-    ctx.run(&mut b, ops, None, &vec![]);
-    ctx.finish(&b, None);
+    if BUILD_UNWINDING.load(SeqCst) {
+        // (rejected registrations are caught inside `run`; nothing escapes)
+        in_unwinding(|| {
+            ctx.run(&mut b, ops, None, &vec![]);
+            ctx.finish(&b, None);
+        });
+    } else {
+        ctx.run(&mut b, ops, None, &vec![]);
+        ctx.finish(&b, None);
+    }
     ctx.out.builder = Some(b);
     ctx.out
 }
